@@ -46,8 +46,10 @@ DeclName(i) == IF i < 10 THEN "D0" \o ToString(i) ELSE "D" \o ToString(i)
 (* ... and two pairs without tags of their own: a declaration spanning several lines whose closing line carries a trailing comment
    with a tag line (+gengo:a / +gengo:a=false), directly followed - no blank line, no doc comment - by another declaration.
    A trailing comment documents nothing: both are decided by the package and the globals alone. *)
-TailKinds == <<"mltrail_on", "after_ml", "mltrail_off", "after_ml">>
-Decls == [i \in 1..32 |-> IF i <= 28 THEN [name |-> DeclName(i), kind |-> PkgKinds[((i - 1) % 4) + 1], place |-> PlacementSeq[((i - 1) \div 4) + 1]]
+(* ... and one type without tags that is declared in a FILE WRITTEN BY AN EARLIER RUN (<base>.zzz.go): it is a package-scope
+   defined type like any other *)
+TailKinds == <<"mltrail_on", "after_ml", "mltrail_off", "after_ml", "in_generated_file">>
+Decls == [i \in 1..33 |-> IF i <= 28 THEN [name |-> DeclName(i), kind |-> PkgKinds[((i - 1) % 4) + 1], place |-> PlacementSeq[((i - 1) \div 4) + 1]]
                           ELSE [name |-> DeclName(i), kind |-> TailKinds[i - 28], place |-> "none"]]
 
 GenNames == [a |-> <<"a">>, ab |-> <<"ab">>, acb |-> <<"a", "b">>]
